@@ -51,6 +51,11 @@ class BMPWriter:
         self.linesize = align32((self.width * self.bits + 7) // 8)
         self.datasize = self.linesize * self.height
         headersize = 14 + 40 + ncols * 4
+        if headersize + self.datasize >= 2**32:
+            # the size fields of the format have 32 bits
+            raise PDFValueError(
+                f"Image of {self.width} x {self.height} is too large for a BMP file"
+            )
         info = struct.pack(
             "<IiiHHIIIIII",
             40,
